@@ -20,7 +20,8 @@ class WouldBlock(BaseException):
 class Env:
     """One sequential run: virtual time, logical current thread, OS call numbering, fault set."""
 
-    def __init__(self, faults=()):
+    def __init__(self, faults=(), interrupts=()):
+        self.interrupts = set(interrupts)   # OS call numbers at which a KeyboardInterrupt arrives instead
         self.vt = 0.0
         self.cur = 0                    # logical thread executing the current operation
         self.ncall = 0
@@ -32,6 +33,8 @@ class Env:
         k = self.ncall
         self.ncall += 1
         self.calls.append(kind)
+        if k in self.interrupts:
+            raise KeyboardInterrupt('injected into ' + kind)
         return k in self.faults
 
 
@@ -125,10 +128,8 @@ class FcntlProxy(types.ModuleType):
         try:
             return _fcntl.flock(fd, op | _fcntl.LOCK_NB)
         except OSError:
-            # the real call would block in the kernel for ever; FileLock would never reach its own
-            # clean-up, so the harness closes the descriptor of the abandoned attempt itself
-            _os.close(fd)
-            ENV.open_fds.discard(fd)
+            # the real call would block in the kernel for ever: the attempt is abandoned (run_seq closes whatever
+            # descriptor the abandoned attempt leaves open)
             raise WouldBlock('flock')
 
 
@@ -178,7 +179,7 @@ def model_line(reent, faults, ops):
             f"faults={','.join(map(str, sorted(faults)))} ops={';'.join(enc_op(o) for o in ops)}")
 
 
-def run_seq(reent, faults, ops, workdir, expand=False, ctor=None):
+def run_seq(reent, faults, ops, workdir, expand=False, ctor=None, interrupts=()):
     """Execute ops one after the other on real FileLock objects over one real lock file.
     op = ('a', obj, thread, mode) with mode 'n' | 'b' | 't<ticks>'   or   ('r', obj, thread, force)   or
     ('x', obj, thread, mode): a whole `with obj.acquire_ctx(...)` block (mode 'w': the plain with-statement; 'we': the same with a body
@@ -190,7 +191,7 @@ def run_seq(reent, faults, ops, workdir, expand=False, ctor=None):
     timed acquires, and appear as such in the expanded list."""
     global ENV
     FL = install()
-    ENV = Env(faults)
+    ENV = Env(faults, interrupts)
     env = ENV
     path = _os.path.join(workdir, 'seq.lock')
     ctor = list(ctor) if ctor else [None] * len(reent)
@@ -215,6 +216,7 @@ def run_seq(reent, faults, ops, workdir, expand=False, ctor=None):
             env.cur = op[2]
             t0 = env.vt
             n0 = env.ncall
+            fds0 = set(env.open_fds)
             o = objs[op[1]]
             entered = None
             body_raises = False
@@ -258,6 +260,12 @@ def run_seq(reent, faults, ops, workdir, expand=False, ctor=None):
                 env.ncall = n0                 # the abandoned call does not count (the model leaves the state)
                 del env.calls[n0:]
                 env.vt = t0
+                for fd in list(env.open_fds - fds0):      # descriptor of the abandoned attempt, if still open
+                    try:
+                        _os.close(fd)
+                    except OSError:
+                        pass
+                    env.open_fds.discard(fd)
             except OSError:
                 res = 'X'
             except BaseException as e:  # noqa
